@@ -12,9 +12,10 @@ from __future__ import annotations
 
 from mc import charts
 
-NOTES = [(100.0, 0, None), (50.0, 1, None), (300.0, 2, None), (200.0, 1, 100.0), (400.0, 3, 50.0)]
-BPMS = [(0.0, 120.0), (250.0, 60.0)]
-SVS = [(10.0, 2.0), (260.0, 0.5)]
+# 120 bpm: beat 500 ms, measure 2000 ms; the tempo change sits on a measure line; every time is on the 1/4-beat grid
+NOTES = [(1000.0, 0, None), (500.0, 1, None), (3000.0, 2, None), (2000.0, 1, 1000.0), (4000.0, 3, 500.0)]
+BPMS = [(0.0, 120.0), (2000.0, 60.0)]
+SVS = [(100.0, 2.0), (2600.0, 0.5)]
 
 OSU_TEXT = """osu file format v14
 
@@ -35,16 +36,16 @@ CircleSize:4
 
 [TimingPoints]
 0,500,4,1,0,50,1,0
-10,-50,4,1,0,50,0,0
-250,1000,4,1,0,50,1,0
-260,-200,4,1,0,50,0,0
+100,-50,4,1,0,50,0,0
+2000,1000,4,1,0,50,1,0
+2600,-200,4,1,0,50,0,0
 
 [HitObjects]
-192,192,50,1,0,0:0:0:0:
-64,192,100,1,0,0:0:0:0:
-192,192,200,128,0,300:0:0:0:0:
-320,192,300,1,0,0:0:0:0:
-448,192,400,128,0,450:0:0:0:0:
+192,192,500,1,0,0:0:0:0:
+64,192,1000,1,0,0:0:0:0:
+192,192,2000,128,0,3000:0:0:0:0:
+320,192,3000,1,0,0:0:0:0:
+448,192,4000,128,0,4500:0:0:0:0:
 """
 
 QUA_TEXT = """AudioFile: a.mp3
@@ -56,30 +57,30 @@ DifficultyName: ver
 TimingPoints:
 - StartTime: 0
   Bpm: 120
-- StartTime: 250
+- StartTime: 2000
   Bpm: 60
 SliderVelocities:
-- StartTime: 10
+- StartTime: 100
   Multiplier: 2
-- StartTime: 260
+- StartTime: 2600
   Multiplier: 0.5
 HitObjects:
-- StartTime: 50
+- StartTime: 500
   Lane: 2
   KeySounds: []
-- StartTime: 100
+- StartTime: 1000
   Lane: 1
   KeySounds: []
-- StartTime: 200
+- StartTime: 2000
   Lane: 2
-  EndTime: 300
+  EndTime: 3000
   KeySounds: []
-- StartTime: 300
+- StartTime: 3000
   Lane: 3
   KeySounds: []
-- StartTime: 400
+- StartTime: 4000
   Lane: 4
-  EndTime: 450
+  EndTime: 4500
   KeySounds: []
 """
 
@@ -149,9 +150,9 @@ def make(game: str, variant: str):
         from reamber.osu.OsuSample import OsuSample
         from reamber.osu.lists import OsuSampleList
 
-        m.samples = OsuSampleList([OsuSample(offset=120.0, sample_file="s.wav", volume=40)])
+        m.samples = OsuSampleList([OsuSample(offset=1200.0, sample_file="s.wav", volume=40)])
     if variant == "gaps":
-        m.hits = m.hits.after(60.0)
+        m.hits = m.hits.after(600.0)
         m.bpms = m.bpms  # unchanged: tempo lists are rarely filtered
     if variant == "unsorted":
         for k in list(m.objs):
